@@ -23,6 +23,8 @@ var c07Docs = []string{
 	"[ref]: /u 'T'\n\n[ref] ![i][ref] <http://x.y> <b>raw</b> &#x41; &Dcaron;\n",
 	"# h {#i .c data-x=y width=3}\n\n![a](/s){width=10 height=20 title=t lang=en}\n\n## h2 {lang=fr dir=ltr}\n",
 	"あいう\nえお\n\nＡ\nｂ\n",
+	"[ΑΓΩ]: /g\n[Straße]: /s\n[ДОМ]: /d\n[ǅ]: /x\n\n[αγω] [STRASSE] [дом] [ǆ] [ΑΓΩ][] ![i][straSSe]\n",
+	"[Ünïcödé Läbel]: /u\n\n[ünïcödé läbel] and [ÜNÏCÖDÉ LÄBEL][] <http://a.b/é> [ſ][]\n\n[S]: /long-s\n",
 }
 
 // one burst: G goroutines use the same fresh instance at once (first uses race with each other)
